@@ -112,7 +112,10 @@ class RustMagicNumberAnalyzer(RustBaseAnalyzer):
             "f32",
             "f64",
         )
+        is_hex = text.lower().startswith("0x")
         for suffix in suffixes:
+            if is_hex and suffix.startswith("f"):
+                continue  # in 0x1f32 the trailing "f32" are hex digits, not a float suffix
             if text.endswith(suffix):
                 return text[: -len(suffix)]
         return text
